@@ -47,7 +47,17 @@ def build(spec):
                  fixed_effects={}, policy="drop", threshold=100, allow_pointer_config=False, el_tiny_county=False,
                  aggregates=["postal_code", "unit"], rare_options=False,
                  mp=dict(fit_turnout_outlier_model=True, fit_margin_outlier_model=True))
+    corr = o.get("estimator") == "bootstrap" and (i // 3) % 3 == 0
+    if corr:
+        o.update(district=False, el_n_states=int(3 + (i // 9) % 2), rare_options=False)
     el, feed, status, call = cases_mod.build(spec["seed"], PROPERTY, i, o)
+    if corr:
+        # rarely used option: correlations imposed between the swings of named contests; overlapping pairs give a
+        # matrix that is not positive semi-definite and is projected before the swings are drawn
+        st = sorted(set(el.pre.postal_code.astype(str)))
+        call["model_parameters"]["contest_correlations"] = (
+            [((st[0], st[1]), 0.9), ((st[1], st[2]), 0.9)] if (i // 9) % 2 == 0 else [((st[0], st[1], st[2]), 0.5)])
+        el.meta["contest_correlations"] = "overlapping-pairs" if (i // 9) % 2 == 0 else "one-group"
     if "unit" not in call["aggregates"]:
         call["aggregates"].append("unit")
     if call["pi_method"] == "bootstrap":
